@@ -22,9 +22,11 @@ PROPS['C06'] = dict(
     need_counters=['writes', 'reads', 'read_across_ring_end', 'grow_events', 'linearizable'],
 )
 PROPS['C07'] = dict(
-    level='exploration', builds=_pbuf,
-    stages=[dict(name='seq', bin='pbuf', args=['-prop', 'C07', '-mode', 'seq'], shards=shards(4, 128), par=16)],
-    need_counters=['writes', 'reads', 'refused_by_count', 'refused_by_size', 'refused_by_cap'],
+    level='exploration', builds=dict(_pbuf, pbuf_race=dict(pkg='./cmd/pbuf', overlay='shim', race=True)),
+    stages=[dict(name='seq', bin='pbuf', args=['-prop', 'C07', '-mode', 'seq'], shards=shards(4, 128), par=16),
+            dict(name='conclimit', bin='pbuf_race', args=['-prop', 'C07', '-mode', 'conclimit'], shards=shards(4, 16), par=8, crash_is_violation=True, replay='rerun', group='g2')],
+    replay_stage='seq',
+    need_counters=['writes', 'reads', 'refused_by_count', 'refused_by_size', 'refused_by_cap', 'limit_histories'],
 )
 
 PROPS['C20'] = dict(
